@@ -28,6 +28,7 @@ fn main() {
             "codeid" => fuzz::run_codeid(&toks),
             "cidrt" => fuzz::run_cidrt(&toks),
             "names" => fuzz::run_names(&toks),
+            "idxrt" => fuzz::run_idxrt(&toks),
             "bpfuzz" => fuzz::run_bpfuzz(&toks),
             _ => panic!("unknown mode"),
         };
